@@ -24,6 +24,8 @@ type drvDatagram struct {
 	Data string `json:"data"`
 	// pipeline the datagram goes to when it is not the request's own
 	Proto string `json:"proto,omitempty"`
+	// the injector waits this long before handing the datagram over
+	PauseMS int `json:"pause_ms,omitempty"`
 }
 
 type drvRequest struct {
